@@ -275,8 +275,13 @@ class TypedNode(Node):
                     raise UniqueConstraintError(
                         f"Node.data already exists in parent: {n}"
                     )
-            for n in topnodes:
-                self.add_child(n, before=before, deep=deep)
+            # Create the top copies first, then their descendants: `self` may be
+            # located inside one of the copied branches
+            copies = [
+                (self.add_child(n, before=before, deep=False), n) for n in topnodes
+            ]
+            if deep:
+                self._add_from_pairs(copies)
             return
 
         # Validate `before` first: creating the node already registers it
@@ -342,7 +347,7 @@ class TypedNode(Node):
             children.append(node)
 
         if deep and source_node:
-            node._add_from(source_node)
+            node._add_from(source_node, _skip=(node,))
 
         return node
 
@@ -437,21 +442,27 @@ class TypedNode(Node):
         )
 
     def _add_from(
-        self, other: Node, *, predicate: Optional[PredicateCallbackType] = None
+        self,
+        other: Node,
+        *,
+        predicate: Optional[PredicateCallbackType] = None,
+        _skip: tuple = (),
     ) -> None:
         """Append copies of all source descendants to self (keeping the `kind`)."""
         if predicate:
             return self._add_filtered(other, predicate)
 
         assert not self._children
-        for child in other.children:
+        for child in list(other.children):
+            if any(child is s for s in _skip):
+                continue
             new_child = self.add_child(
                 child.data,
                 kind=getattr(child, "kind", None),
                 data_id=child._data_id,
             )
             if child.children:
-                new_child._add_from(child, predicate=None)
+                new_child._add_from(child, predicate=None, _skip=_skip)
         return
 
     def move_to(
